@@ -303,6 +303,9 @@ pub mod field;
 pub mod metadata;
 mod parent;
 pub mod span;
+#[cfg(feature = "verif-hooks")]
+#[allow(unsafe_code)]
+pub mod verif;
 
 #[doc(inline)]
 pub use self::{
